@@ -231,7 +231,8 @@ def loop_case(sc: dict[str, Any]) -> dict[str, Any]:
         sim.run(sc['end'])
         o = sim.obj('o1') or {}
         op.finish()
-        return {'kind': 'loop', 'handled': sorted(set(handled)), 'tags': list(o.get('spec', {}).get('tags', [])), 'case': sc}
+        return {'kind': 'loop', 'handled': sorted(set(handled)), 'tags': list(o.get('spec', {}).get('tags', [])),
+                'last': f'tag-{o.get("spec", {}).get("x")}', 'case': sc}
     finally:
         sim.close()
 
